@@ -178,6 +178,11 @@ func (s *service) GetChunkHashes(ctx context.Context, addr boson.Address, pyrami
 		bmtWriter := bmt.NewBmtWriter(&noopChainWriter{})
 		for hash, data := range pyramid {
 			var ref boson.Address
+			// the hasher ignores anything beyond a full chunk: reject oversized entries here
+			if len(data) > boson.ChunkSize+boson.SpanSize {
+				err = ErrInvalidPyramid
+				return
+			}
 			args := pipeline.PipeWriteArgs{Data: data}
 			err = bmtWriter.ChainWrite(&args)
 			if err != nil {
